@@ -791,8 +791,10 @@ open Real
     updates, `dk^-0.6 - T^-0.6` (`_decay_const = adaptation_duration ** (-0.6)`). -/
 noncomputable def gainAT (T : ℕ) (dk : ℤ) : ℝ := (dk : ℝ) ^ (-(0.6 : ℝ)) - (T : ℝ) ^ (-(0.6 : ℝ))
 
-/-- The gain of the Veitch update with decay `β` (default `1 / log10 T`). -/
-noncomputable def gainV (β : ℝ) (dk : ℤ) : ℝ := (dk : ℝ) ^ (-β) - 0.1
+/-- The gain of the Veitch update with decay `β` (default `1 / log10 T`):
+    `dk^-β - T^-β` (`_decay_const = adaptation_duration ** (-adaptation_decay)`, repo fix of the
+    third session; `T^-β = 0.1` for the default decay, `gainV_default_const`). -/
+noncomputable def gainV (T : ℕ) (β : ℝ) (dk : ℤ) : ℝ := (dk : ℝ) ^ (-β) - (T : ℝ) ^ (-β)
 
 theorem gainAT_pos (T : ℕ) (dk : ℤ) (h1 : 1 < dk) (h2 : dk < T) : 0 < gainAT T dk := by
   unfold gainAT
@@ -808,39 +810,43 @@ theorem gainAT_lt_one (T : ℕ) (dk : ℤ) (h1 : 1 < dk) : gainAT T dk < 1 := by
   have h2 : 0 ≤ (T : ℝ) ^ (-(0.6 : ℝ)) := Real.rpow_nonneg (Nat.cast_nonneg T) _
   linarith
 
-theorem gainV_pos (T : ℕ) (β : ℝ) (hβ : β ≤ 1 / Real.logb 10 T) (dk : ℤ) (h1 : 1 ≤ dk)
-    (h2 : dk < T) : 0 < gainV β dk := by
+/-- For every positive decay the gain is positive throughout the window (and vanishes at `dk = T`). -/
+theorem gainV_pos (T : ℕ) (β : ℝ) (hβ : 0 < β) (dk : ℤ) (h1 : 1 ≤ dk)
+    (h2 : dk < T) : 0 < gainV T β dk := by
   unfold gainV
   have hd1 : (1 : ℝ) ≤ dk := by exact_mod_cast h1
   have hd : (0 : ℝ) < dk := by linarith
   have hlt : (dk : ℝ) < T := by exact_mod_cast h2
-  have hT1 : (1 : ℝ) < T := by linarith
-  have hT0 : (0 : ℝ) < T := by linarith
-  have hlogT : 0 < Real.logb 10 T := Real.logb_pos (by norm_num) hT1
-  have hkey : (T : ℝ) ^ (-(1 / Real.logb 10 T)) = 0.1 := by
-    have h10 : (10 : ℝ) ^ Real.logb 10 T = (T : ℝ) :=
-      Real.rpow_logb (by norm_num) (by norm_num) hT0
-    have hmul : Real.logb 10 ↑T * -(1 / Real.logb 10 ↑T) = -1 := by field_simp
-    calc (T : ℝ) ^ (-(1 / Real.logb 10 T))
-        = ((10 : ℝ) ^ Real.logb 10 T) ^ (-(1 / Real.logb 10 T)) := by rw [h10]
-      _ = (10 : ℝ) ^ (Real.logb 10 T * -(1 / Real.logb 10 T)) :=
-          (Real.rpow_mul (by norm_num) _ _).symm
-      _ = 0.1 := by rw [hmul, Real.rpow_neg_one]; norm_num
-  have h3 : (dk : ℝ) ^ (-(1 / Real.logb 10 T)) ≤ (dk : ℝ) ^ (-β) :=
-    Real.rpow_le_rpow_of_exponent_le hd1 (by linarith)
-  have h4 : (T : ℝ) ^ (-(1 / Real.logb 10 T)) < (dk : ℝ) ^ (-(1 / Real.logb 10 T)) :=
-    Real.rpow_lt_rpow_of_neg hd hlt (by simp; positivity)
+  have := Real.rpow_lt_rpow_of_neg hd hlt (by linarith : -β < 0)
   linarith
 
-theorem gainV_one (β : ℝ) : gainV β 1 = 9 / 10 := by
+/-- With the documented default decay `1 / log10 T` the constant is the `0.1` of Veitch et al. -/
+theorem gainV_default_const (T : ℕ) (hT : 1 < T) : (T : ℝ) ^ (-(1 / Real.logb 10 T)) = 0.1 := by
+  have hT1 : (1 : ℝ) < T := by exact_mod_cast hT
+  have hT0 : (0 : ℝ) < T := by linarith
+  have hlogT : 0 < Real.logb 10 T := Real.logb_pos (by norm_num) hT1
+  have h10 : (10 : ℝ) ^ Real.logb 10 T = (T : ℝ) :=
+    Real.rpow_logb (by norm_num) (by norm_num) hT0
+  have hmul : Real.logb 10 ↑T * -(1 / Real.logb 10 ↑T) = -1 := by field_simp
+  calc (T : ℝ) ^ (-(1 / Real.logb 10 T))
+      = ((10 : ℝ) ^ Real.logb 10 T) ^ (-(1 / Real.logb 10 T)) := by rw [h10]
+    _ = (10 : ℝ) ^ (Real.logb 10 T * -(1 / Real.logb 10 T)) :=
+        (Real.rpow_mul (by norm_num) _ _).symm
+    _ = 0.1 := by rw [hmul, Real.rpow_neg_one]; norm_num
+
+theorem gainV_one (T : ℕ) (β : ℝ) : gainV T β 1 = 1 - (T : ℝ) ^ (-β) := by
   unfold gainV
   simp only [Int.cast_one, Real.one_rpow]
-  norm_num
 
-theorem gainV_le (β : ℝ) (hβ : 0 ≤ β) (dk : ℤ) (h1 : 1 ≤ dk) : gainV β dk ≤ 0.9 := by
+/-- With the default decay the first gain of the window is `0.9`. -/
+theorem gainV_one_default (T : ℕ) (hT : 1 < T) : gainV T (1 / Real.logb 10 T) 1 = 9 / 10 := by
+  rw [gainV_one, gainV_default_const T hT]; norm_num
+
+theorem gainV_le (T : ℕ) (β : ℝ) (hβ : 0 ≤ β) (dk : ℤ) (h1 : 1 ≤ dk) : gainV T β dk ≤ 1 := by
   unfold gainV
   have hd1 : (1 : ℝ) ≤ dk := by exact_mod_cast h1
-  have : (dk : ℝ) ^ (-β) ≤ 1 := Real.rpow_le_one_of_one_le_of_nonpos hd1 (by linarith)
+  have h1' : (dk : ℝ) ^ (-β) ≤ 1 := Real.rpow_le_one_of_one_le_of_nonpos hd1 (by linarith)
+  have h2 : 0 ≤ (T : ℝ) ^ (-β) := Real.rpow_nonneg (Nat.cast_nonneg T) _
   linarith
 
 /-- Bernoulli: `(x+1)^0.4 - x^0.4 ≤ 0.4 x^-0.6`. -/
